@@ -716,8 +716,8 @@ def main():
     os.makedirs(evdir, exist_ok=True)
     with open(os.path.join(evdir, prop + ".json"), "w") as f:
         json.dump(ev, f, indent=1)
-    if not keep and status == 0:
-        shutil.rmtree(wdir, ignore_errors=True)
+    if not keep and (status == 0 or os.path.realpath(repo) != "/repo"):
+        shutil.rmtree(wdir, ignore_errors=True)     # (scratch-tree runs never keep their work directory: they would pile up)
     log("%s: %s (%d obligations, %d functions, %d lemmas, %.1fs)" % (prop, ev["coverage"]["verdict"], obligations, len(fns), len(lemmas), time.time() - t0))
     sys.exit(status)
 
